@@ -342,7 +342,7 @@ struct Instance {
         if (dpos != std::string::npos) idx = atoi(comp.c_str() + dpos);
         if ((pp.kind == RECURS || pp.kind == RECURSP) && idx > 3) continue;  // cannot be generated (N<=4)
         void *co = child_obj(table, obj, pp.kind == MULTI ? (int)RECUR : pp.kind, idx);
-        if (!co && pp.kind != RECURSP) continue;  // rRecurpCb returns on a NULL pointer; rRecurspCb hands a NULL element down unchecked
+        if (!co) continue;  // rRecurpCb and rRecurspCb return on a NULL pointer
         int child = table_id(table_level(table) + 1, child_variant(pp.kind));
         expect(child, co, rest.substr(s + 1), tags, loc + comp + "/", out, unspecified);
       }
